@@ -50,6 +50,7 @@ def merge(*lists):
 
 class Schedules(Suite):
     name = "schedules"
+    parallel = True
 
     def cases(self, ctx, budget):
         out = []
@@ -79,11 +80,11 @@ class Schedules(Suite):
                 out.append(G.place({"id": {"s": "abc"}, "method": "m", "params": None, "D": 2 * P, "tie": tie, "hasToken": True, "ev": [list(e) for e in ev]}))
         # progress streams
         rng = ctx.sub_rng("c14-progress", budget)
-        n = 1500 if budget == "quick" else 40000
+        n = 6000 if budget == "quick" else 150000
         for i in range(n):
             c = G.seeded(rng, ["G", "G", "G", "F", "N", "O", "R", "E", "Q", "B"], max_len=10, progress_p=0.9, cancel_p=0.25)
             out.append(c)
-        n2 = 600 if budget == "quick" else 20000
+        n2 = 2500 if budget == "quick" else 60000
         for i in range(n2):
             out.append(G.seeded(rng, G_ALL, max_len=14, cancel_p=0.5))
         ctx.exhaustive_parts.append("schedules: full grid of (deadline, traffic, tie, cancel placement, response placement)")
@@ -100,11 +101,9 @@ class Schedules(Suite):
                 o["twin"] = {"outcome": o2["outcome"], "t": o2["t"], "cbs": o2["cbs"], "p": o2.get("p"),
                              "writes": H.impl_shape(c2, o2)["writes"]}
             obs.append(o)
-        self._last = {id(c): o for c, o in zip(cases, obs)}
         return obs
 
-    def model_line(self, case):
-        o = self._last.get(id(case))
+    def model_line(self, case, o=None):
         if o is None or o.get("harness_errors"):
             return None
         return H.model_line(case, o)
